@@ -5,6 +5,7 @@ import XV.Spec.Marshal
 import XV.Spec.Magic
 import XV.Model.Header
 import XV.Model.LoadOutcome
+import XV.Model.Marsh
 import XV.Gen.Layouts
 namespace XV.Driver
 open XV XV.Model.Unmarshal
@@ -90,5 +91,26 @@ def outcomeDispatch (op : String) (args : List String) : Option String :=
       -- host magic 3531 (the harness's main host is 3.12): the native fast path is reported as such
       pure (match Model.LoadOutcome.loadModule headerTables Gen.graal3Magics limit 3531 (fun _ => .escaped "native") data with
         | .returned => "returned" | .importError => "ImportError" | .escaped c => s!"escaped:{c}")
+  | _, _ => none
+end XV.Driver
+
+namespace XV.Driver
+open XV XV.Model XV.Model.Unmarshal
+
+partial def hasFloat : V → Bool
+  | .float _ | .complex _ _ | .floatText _ | .complexText _ _ => true
+  | .set _ | .fset _ => true      -- marshal.dumps orders set elements its own way: no byte-exact tie
+  | .tuple xs | .list xs => xs.any hasFloat
+  | .dict kvs => kvs.any fun (k, v) => hasFloat k || hasFloat v
+  | _ => false
+
+def marshDispatch (op : String) (args : List String) : Option String :=
+  match op, args with
+  | "x.marshdump", [h] => do
+      -- the value is given as the host's own marshal.dumps(v, 4) bytes, read by the Spec
+      let data ← parseHex h
+      pure (match Spec.Marshal.loads [3, 12] data with
+        | .ok (v, _) => if hasFloat v then "(skip-float)" else showHex (Model.Marsh.dump v)
+        | .error _ => "(err spec-rejects)")
   | _, _ => none
 end XV.Driver
